@@ -324,7 +324,11 @@ def run_nav(ctx, n, drv=None, max_pos=60):
         ps = lambda p: '.'.join(map(str, p))
         opt = lambda nd: 'None' if nd is None else ps(paths[id(nd)])
         leaves = [(p, nd) for p, nd in node_paths(m) if not hasattr(nd, 'children')]
-        a = ';'.join('%s>%s<%s' % (ps(p), opt(nd.get_next_leaf()), opt(nd.get_previous_leaf())) for p, nd in leaves)
+        try:
+            a = ';'.join('%s>%s<%s' % (ps(p), opt(nd.get_next_leaf()), opt(nd.get_previous_leaf())) for p, nd in leaves)
+        except Exception as ex:
+            # the implementation's navigation raises, or returns a node that is not in the tree (KeyError of the path table): that is the answer to compare
+            a = 'NAVIGATION-RAISES:%s' % type(ex).__name__
         lines = split_lines(code)
         allpos = [(ln, col) for ln, text in enumerate(lines, 1) for col in range(len(text) + 2)] + [(0, 0), (len(lines) + 1, 0)]
         poss = r.sample(allpos, min(max_pos, len(allpos)))
@@ -335,8 +339,14 @@ def run_nav(ctx, n, drv=None, max_pos=60):
                     res = opt(m.get_leaf_for_position((l, c), include_prefixes=incl))
                 except ValueError:
                     res = 'ValueError'
+                except Exception as ex:
+                    res = 'RAISES:%s' % type(ex).__name__
                 b.append('%d,%d,%d=%s' % (l, c, int(incl), res))
-        e = 'F:%s L:%s|%s|%s' % (ps(paths[id(m.get_first_leaf())]), ps(paths[id(m.get_last_leaf())]), a, ';'.join(b))
+        try:
+            fl = 'F:%s L:%s' % (ps(paths[id(m.get_first_leaf())]), ps(paths[id(m.get_last_leaf())]))
+        except Exception as ex:
+            fl = 'F/L-RAISES:%s' % type(ex).__name__
+        e = '%s|%s|%s' % (fl, a, ';'.join(b))
         req = 'nav %s %s %d %s' % (impl.vn(v), impl.enc_str(code), len(poss), ' '.join('%d %d' % x for x in poss))
         cases.append((v, code, e, req))
     outs = drv.run([c[3] for c in cases])
